@@ -21,7 +21,9 @@ RULE = (
     "blank e Arabic-Indic-3; text/code types: A Y N z 1 blank _ = SOH e-acute), the empty string, every "
     "single-character substitution (15-symbol alphabet) / deletion / insertion at every position of valid "
     "templates of the fixed-layout types plus field-boundary values, Hypothesis members and one-edit near "
-    "misses of longer values; for EVERY enumerated field of both dictionaries every enumerator and near "
+    "misses of longer values, each also offered to one field of every other datatype; a pool of templates, boundary values and "
+    "members of all types offered to the fields of every datatype in one process in three orders (the verdict must not depend on "
+    "what was validated before); for EVERY enumerated field of both dictionaries every enumerator and near "
     "misses (case flip, blank padding, prefix, concatenation). Three-valued oracle from FIX 4.4 Vol.1 data "
     "types (must-accept / must-reject / FREE); every rejection must be FIXMessageError. Non-trivial = string "
     "on which the oracle is not FREE; distinct by (type, field, string)."
@@ -111,6 +113,7 @@ class Judge:
         except BaseException as e:  # noqa
             got = "raised " + type(e).__name__
         case = {"ftype": ftype, "tag": field.tag, "name": field.name, "value": s, "origin": origin}
+        case.update(getattr(self, "extra_case", {}))
         t = ftype.upper()
         if got.startswith("raised") or got.startswith("returned"):
             self.acc.violation(f"C19:non-message-error/{t}/{got.split()[-1]}/{defect_class(t, s)}",
@@ -125,6 +128,7 @@ class Judge:
         self.acc.case((t, field.tag, s) if nt else None, cls=[f"type={t}", f"oracle={verdict}"],
                       sample={"type": t, "field": field.name, "value": s, "oracle": verdict, "library": got}
                       if nt and len(self.acc.samples) < 8 and len(s) > 2 and (self.acc.evaluations % 997 == 0) else None)
+        return got
 
 
 def representative_fields():
@@ -190,6 +194,33 @@ def type_shard(acc, ftype):
     acc.extra.setdefault("oracle_counts", {})
     for (tt, v), n in j.counts.items():
         acc.extra["oracle_counts"][f"{tt}/{v}"] = n
+
+
+def cross_shard(acc):
+    """One process, every pooled string offered to the fields of EVERY datatype (string-major, then type-major in reverse
+    order, then string-major again): the verdict must be a function of (datatype, value), not of what was validated before."""
+    reps = representative_fields()
+    pool = []
+    for t in sorted(LAYOUT):
+        pool += list(TEMPLATES[t]) + list(boundaries(t))
+    for t in sorted(L.KNOWN):
+        pool += list(L.must_accept_samples(t))[:6]
+    pool += ["1", "0", "-1", "31", "32", "Y", "N", "USD", "1.5", "202309", "20230921", "202309w1", "10:11:12", "20230921-10:11:12", "20230921-10:11:12.123"]
+    pool = list(dict.fromkeys(pool))
+    first = {}
+    rounds = [[(s, of) for s in pool for of in reps], [(s, of) for of in reversed(reps) for s in reversed(pool)], [(s, of) for s in pool for of in reps]]
+    for rno, rnd in enumerate(rounds):
+        j = Judge(acc)
+        j.extra_case = {"cross": True}
+        for s, (origin, field) in rnd:
+            t = field.ftype.upper()
+            got = j.one(field, t, s, f"cross-round-{rno}")
+            k = (origin, field.tag, t, s)
+            if k in first and first[k] != got:
+                acc.violation(f"C19:verdict-depends-on-history/{t}", f"{field!r}.validate_value({s!r}) was {first[k]} in an earlier round and is {got} now", {"cross": True, "ftype": t, "value": s})
+            first.setdefault(k, got)
+    acc.klass("cross-type-pool")
+    acc.extra["cross_pool_size"] = len(pool)
 
 
 def enum_shard(acc):
@@ -302,6 +333,11 @@ def hyp_shard(acc, n, seed):
         t, s = x
         for origin, f in reps[t]:
             j.one(f, t, s, "generated")
+        # ... and to one field of every other datatype (a member of one lexical space is a near-miss of its neighbours)
+        for t2 in types:
+            if t2 != t:
+                origin, f = reps[t2][0]
+                j.one(f, t2, s, "generated-for-" + t)
 
     run_given(gen_value(types), one, n, seed)
 
@@ -314,12 +350,16 @@ def plan(tier, seed):
     types = sorted({f.ftype.upper() for _, f in representative_fields()})
     jobs = [("type_shard", {"ftype": t}) for t in types]
     jobs.append(("enum_shard", {}))
+    jobs.append(("cross_shard", {}))
     n, k = (1500, 4) if tier == "quick" else (150000, 16)
     jobs += [("hyp_shard", {"n": n, "seed": derive_seed(seed, PROPERTY, i)}) for i in range(k)]
     return jobs
 
 
 def replay(acc, case):
+    if case.get("cross"):
+        cross_shard(acc)  # history-dependent by nature: the whole (seed-independent) shard is the reproduction
+        return
     if "enum_field" in case:
         path = os.path.join(SRC, case["dict"])
         with warnings.catch_warnings():
